@@ -505,7 +505,7 @@ fn replace_blob(bytes: &[u8], lenf: &Field, content: &[u8]) -> Vec<u8> {
 }
 
 /// number of coordinated edit kinds
-pub const COORDINATED_KINDS: usize = 12;
+pub const COORDINATED_KINDS: usize = 13;
 /// index of "FRI remainder of another length" among the coordinated kinds (the `_` arm below)
 pub const REMAINDER_KIND: usize = 7;
 
@@ -703,6 +703,45 @@ pub fn coordinated_fault(bytes: &[u8], lay: &Layout, kind: usize, variant: usize
             let at = f.off + 1 + (nd - drop) * dsz;
             out.drain(at..at + drop * dsz);
             Some((format!("coordinated: {} dropped from {} (now {} digests)", if drop == nd { "every digest" } else { "the last digest" }, f.name.trim_end_matches(".num_digests"), nd - drop), out))
+        },
+        12 => {
+            // one base-field limb of an element replaced by limb + k * M (M = the field modulus the
+            // proof's own context carries): another byte string for the same residue. A decoder
+            // that reduces instead of refusing makes the proof malleable. Only limbs whose alias
+            // still fits the limb's width qualify (every limb of the 62-bit field; zero or tiny
+            // limbs of the 64- and 128-bit fields).
+            let mlen = find(lay, "ctx.modulus_len")?;
+            let l = get(bytes, mlen.off, 1) as usize;
+            if l != 8 && l != 16 {
+                return None;
+            }
+            let rd = |b: &[u8], off: usize| -> u128 {
+                let mut buf = [0u8; 16];
+                buf[..l].copy_from_slice(&b[off..off + l]);
+                u128::from_le_bytes(buf)
+            };
+            let m = rd(bytes, mlen.off + 1);
+            let cap: u128 = if l == 16 { u128::MAX } else { u64::MAX as u128 };
+            let k: u128 = 1 + (variant as u128 / 8) % 2;
+            let add = m.checked_mul(k)?;
+            let mut limbs: Vec<usize> = vec![];
+            for f in lay.fields.iter().filter(|f| f.kind == Kind::Element && f.len % l == 0) {
+                for j in 0..f.len / l {
+                    let off = f.off + j * l;
+                    if rd(bytes, off).checked_add(add).map(|v| v <= cap).unwrap_or(false) {
+                        limbs.push(off);
+                    }
+                }
+            }
+            if limbs.is_empty() {
+                return None;
+            }
+            let v8 = variant % 8;
+            let off = limbs[if v8 == 7 { limbs.len() - 1 } else { v8 * limbs.len() / 7 }.min(limbs.len() - 1)];
+            let new = rd(bytes, off) + add;
+            let mut out = bytes.to_vec();
+            out[off..off + l].copy_from_slice(&new.to_le_bytes()[..l]);
+            Some((format!("coordinated: element limb at offset {off} replaced by its alias + {k} * modulus ({} eligible limbs)", limbs.len()), out))
         },
         9 => {
             // the proof-of-work nonce moved by a multiple of the base field's modulus M (read from
